@@ -50,54 +50,74 @@ def explore(res, rng, n):
     from ffpack import fdm, utils
     reqs, meta = [], []
     for i in range(n):
-        sn, lim, rows = gen_case(rng)
-        case = {'sn': sn, 'limit': lim, 'rows': rows}
-        if i < 3:
-            res.samples.append(case)
-        res.evaluations += 1
-        res.nontrivial.add(json.dumps(case))
-        res.stat('rows_below_or_at_limit' if any(S <= lim for S, _ in rows) else 'rows_all_above')
-        if len(set(S for S, _ in rows)) < len(rows):
-            res.stat('rows_with_repeated_level')
-        if any(S != lim and abs(S - lim) <= 1e-5 * lim for S, _ in rows):
-            res.stat('rows_within_1e-5_of_limit')
-        d = float(fdm.minerDamageModelClassic([list(r) for r in rows], [list(p) for p in sn], lim))
-        reqs.append(f'miner classic {gen.bits(lim)} {enc(sn)} {enc(rows)}')
-        meta.append(('classic', case, d))
-        fitter = utils.SnCurveFitter([list(p) for p in sn], fatigueLimit=lim)
-        for S in [lim, lim * 0.5, lim + 1.0, 777.0, math.nextafter(lim, math.inf), lim * (1 + 1e-7), lim * (1 - 1e-7)]:
-            v = fitter.getN(S)
-            reqs.append(f'miner logN {gen.bits(lim)} {enc(sn)} {gen.bits(S)}')
-            meta.append(('logN', {'sn': sn, 'limit': lim, 'S': S}, 'sentinel' if v == -1 else math.log10(float(v))))
-        # ---- consequences on the implementation
-        f = lambda rr: float(fdm.minerDamageModelClassic([list(r) for r in rr], [list(p) for p in sn], lim))
-        rows2 = gen_case(rng)[2]
-        if not gen.close(f(rows + rows2), f(rows) + f(rows2), 1e-12, 1e-300):
-            fail(res, 'additive over concatenated tables', case, [f(rows + rows2), f(rows), f(rows2)])
-        if not gen.close(f([(S, 3 * c) for S, c in rows]), 3 * d, 1e-12):
-            fail(res, 'proportional to the counts', case, None)
-        sh = rows[:]
-        rng.shuffle(sh)
-        if not gen.close(f(sh), d, 1e-12):
-            fail(res, 'independent of row order', case, [f(sh), d])
-        if d < 0:
-            fail(res, 'never negative', case, d)
-        if f([(S, c) for S, c in rows if S <= lim] or [(lim, 1.0)]) != 0:
-            fail(res, 'rows at or below the fatigue limit contribute nothing', case, None)
-        a_fit = (fitter.fitter.coeffs[0] if hasattr(fitter.fitter, 'coeffs') else None)
-        if a_fit is not None and a_fit < 0:
-            up = [(S * 1.1 if j == 0 else S, c) for j, (S, c) in enumerate(rows)]
-            if f(up) < d * (1 - 1e-12):
-                fail(res, 'raising a stress level on a falling curve lowers the damage', case, [f(up), d])
-        if len(sn) == 2:
-            for N, S in sn:
-                if S > lim and not gen.close(float(fitter.getN(S)), N, 1e-9):
-                    fail(res, 'two-point S-N data not interpolated exactly', case, [float(fitter.getN(S)), N])
-        # naive model
-        nrows = [(c, c * rng.choice([1.0, 2.0, 1000.0])) for _, c in rows]
-        dn = float(fdm.minerDamageModelNaive([list(r) for r in nrows]))
-        reqs.append(f'miner naive {enc(nrows)}')
-        meta.append(('naive', {'rows': nrows}, dn))
+        try:
+            sn, lim, rows = gen_case(rng)
+            case = {'sn': sn, 'limit': lim, 'rows': rows}
+            if i < 3:
+                res.samples.append(case)
+            res.evaluations += 1
+            res.nontrivial.add(json.dumps(case))
+            res.stat('rows_below_or_at_limit' if any(S <= lim for S, _ in rows) else 'rows_all_above')
+            if len(set(S for S, _ in rows)) < len(rows):
+                res.stat('rows_with_repeated_level')
+            if any(S != lim and abs(S - lim) <= 1e-5 * lim for S, _ in rows):
+                res.stat('rows_within_1e-5_of_limit')
+            # the caller's data as float arrays, reused for every call of this case (they must come back unchanged)
+            import numpy as np
+            sn_arr = np.array([list(p) for p in sn], dtype=float)
+            rows_arr = np.array([list(r) for r in rows], dtype=float)
+            use_arr = (i % 3 == 1)
+            SN = (lambda: sn_arr) if use_arr else (lambda: [list(p) for p in sn])
+            d = float(fdm.minerDamageModelClassic(rows_arr if use_arr else [list(r) for r in rows], SN(), lim))
+            reqs.append(f'miner classic {gen.bits(lim)} {enc(sn)} {enc(rows)}')
+            meta.append(('classic', case, d))
+            # the same S-N data with other fatigue limits, then the first limit again (one process, one data set)
+            for lim2 in (float(rng.choice([40, 100, 200, 300, 500])), lim):
+                d2 = float(fdm.minerDamageModelClassic([list(r) for r in rows], SN(), lim2))
+                reqs.append(f'miner classic {gen.bits(lim2)} {enc(sn)} {enc(rows)}')
+                meta.append(('classic', {'sn': sn, 'limit': lim2, 'rows': rows, 'after_limit': lim}, d2))
+                res.stat('second_limit_on_same_data')
+            fitter = utils.SnCurveFitter(SN(), fatigueLimit=lim)
+            if use_arr:
+                res.stat('ndarray_inputs_reused')
+                if not (np.array_equal(sn_arr, np.array([list(p) for p in sn], dtype=float)) and
+                        np.array_equal(rows_arr, np.array([list(r) for r in rows], dtype=float))):
+                    fail(res, 'the input arrays of the caller were modified', case, {'sn_after': sn_arr.tolist()[:3]})
+            for S in [lim, lim * 0.5, lim + 1.0, 777.0, math.nextafter(lim, math.inf), lim * (1 + 1e-7), lim * (1 - 1e-7)]:
+                v = fitter.getN(S)
+                reqs.append(f'miner logN {gen.bits(lim)} {enc(sn)} {gen.bits(S)}')
+                meta.append(('logN', {'sn': sn, 'limit': lim, 'S': S}, 'sentinel' if v == -1 else math.log10(float(v))))
+            # ---- consequences on the implementation
+            f = lambda rr: float(fdm.minerDamageModelClassic([list(r) for r in rr], SN(), lim))
+            rows2 = gen_case(rng)[2]
+            if not gen.close(f(rows + rows2), f(rows) + f(rows2), 1e-12, 1e-300):
+                fail(res, 'additive over concatenated tables', case, [f(rows + rows2), f(rows), f(rows2)])
+            if not gen.close(f([(S, 3 * c) for S, c in rows]), 3 * d, 1e-12):
+                fail(res, 'proportional to the counts', case, None)
+            sh = rows[:]
+            rng.shuffle(sh)
+            if not gen.close(f(sh), d, 1e-12):
+                fail(res, 'independent of row order', case, [f(sh), d])
+            if d < 0:
+                fail(res, 'never negative', case, d)
+            if f([(S, c) for S, c in rows if S <= lim] or [(lim, 1.0)]) != 0:
+                fail(res, 'rows at or below the fatigue limit contribute nothing', case, None)
+            a_fit = (fitter.fitter.coeffs[0] if hasattr(fitter.fitter, 'coeffs') else None)
+            if a_fit is not None and a_fit < 0:
+                up = [(S * 1.1 if j == 0 else S, c) for j, (S, c) in enumerate(rows)]
+                if f(up) < d * (1 - 1e-12):
+                    fail(res, 'raising a stress level on a falling curve lowers the damage', case, [f(up), d])
+            if len(sn) == 2:
+                for N, S in sn:
+                    if S > lim and not gen.close(float(fitter.getN(S)), N, 1e-9):
+                        fail(res, 'two-point S-N data not interpolated exactly', case, [float(fitter.getN(S)), N])
+            # naive model
+            nrows = [(c, c * rng.choice([1.0, 2.0, 1000.0])) for _, c in rows]
+            dn = float(fdm.minerDamageModelNaive([list(r) for r in nrows]))
+            reqs.append(f'miner naive {enc(nrows)}')
+            meta.append(('naive', {'rows': nrows}, dn))
+        except Exception as e:  # noqa
+            fail(res, 'valid input raised ' + type(e).__name__ + ': ' + str(e)[:120], {'case_index': i, 'sn': sn, 'limit': lim, 'rows': rows}, None)
     for (kind, case, d), a in zip(meta, core.driver_batch(reqs)):
         res.traces += 1
         if kind == 'logN':
